@@ -1,0 +1,5 @@
+//go:build !verif
+
+package sseutil
+
+func verifEvent(point string, kv ...interface{}) {}
